@@ -211,8 +211,8 @@ theorem roots_present : missing requiredClasses classes = [] := by decide +kerne
 
 /-! ## shared_ptr and the identity map `m_ptrmap` (all pointer-holding types, all object graphs)
 
-`GTy` adds `shared_ptr` (and optional / vector / (unordered_)map with pointer-free key /
-pair-tuple-class around it) on top of the pointer-free descriptors (`GTy.flat`).  PACK writes the
+`GTy` adds `shared_ptr` (and optional / unique_ptr / vector / array / (unordered_)map with
+pointer-free key / pair-tuple-class around it) on top of the pointer-free descriptors (`GTy.flat`).  PACK writes the
 ADDRESS of the pointee and the pointee only at its first occurrence; UNPACK makes one new object
 per address (`ρ a` = its address) and lets every later pointer with that address share it.  `H`
 is the heap the object is a view of (`GVal.cons H v`: equal addresses show equal pointees). -/
